@@ -13,8 +13,8 @@ TRUSTED_BASE = [
     "independent exact evaluator over Python fractions as the specification oracle",
 ]
 ASSUMPTIONS = [
-    "the theorem is about the model's evaluator on every tree of numeric shape; that the parser produces the intended tree is C06, "
-    "and that num::BigRational computes exactly is exercised by the correspondence on literals of up to 300 digits",
+    "the theorems are about the lexer, parser and evaluator models (composed in C01_query_expression for every numeric expression "
+    "text); that num::BigRational computes exactly is exercised by the correspondence on literals of up to 300 digits",
 ]
 
 
